@@ -22,6 +22,12 @@ CHECKS = {
  "C19": ("per-message-type branch extraction from guard states of process_message's CFG; count-on-paths of send_ack per branch; call-closure exclusion; who-may-call; store/dominance checks in send_ack",
          "Exactly one send_ack(src) on every path of each subscription-control branch, exactly one iff connect_module(...) is truthy for the connect types, none in any other branch's call closure; addressing of the ACK; logger copy on every path; requester/logger overlap; client handshake order.",
          "Cross-module interleaving follows from C05-T single-threadedness and is not separately decided.", "DESIGN.md §2 C19"),
+ "C06": ("swap detector over resolved call sites (argument/parameter binding), def-use flow of options into CONNECT fields and Module attributes, dominating-guard truth tables (integer theory) on connect_module, per-iteration back-edge guard facts of the uniqueness loop, interval check of the dynamic cursor",
+         "Options bind to the parameters they are named after at every resolved call site; each option reaches the same-named wire field and Module attribute; connected=True is dominated by the range test and the completed uniqueness loop (id and name refusals) or an id from assign_module_id whose returns are dominated by `not in current ids`; the client adopts the acknowledged id.",
+         "Wrap-around of the dynamic cursor over long histories is arithmetic over unbounded histories and only decided as an interval invariant. The 100-vs-99 boundary disagreement between client and manager is an observation, not armed.", "DESIGN.md §2 C06"),
+ "C08": ("count-on-paths of drains between header read and each decode-error raise, must-precede of the connected-flag clear before every ConnectionLost raise, try/handler ownership of every socket primitive, dominating-guard truth tables for the subscription filter and the size/version rejection conditions, store scan on the received objects",
+         "Exactly one frame is consumed on every path of _read_message (one drain before each decode-error raise, none on success, payload read under size equality); ConnectionLost always follows _connected=False and every socket primitive converts ConnectionError; read_message returns only under the subscription filter; version/size rejections are exact; bytes are received into the returned objects.",
+         "MSG_WAITALL / OS socket semantics trusted; 'server closes at every byte offset' is not enumerated, only the flag/raise discipline is decided.", "DESIGN.md §2 C08"),
 }
 
 NOT_YET = "check not built yet (build phase in progress)"
